@@ -3,7 +3,7 @@ CONSTANTS
   Uni = {1, 2, 3}
   Bi = {11, 12}
   Stalled = {2}
-  Foreign = {3}
+  ClassOf <- Foreign3
   CapUniH3 = 4
   CapUniWT = 4
   CapBiH3 = 1
@@ -12,6 +12,7 @@ CONSTANTS
   Callers = {"a", "b", "c"}
   Wants <- W3
   NDg = 1
+  MaxCancels = 2
   Causes <- TwoCauses
 INVARIANTS ExactlyOnce PermitsSane ResultBeforeClose CauseNotMisattributed
 CHECK_DEADLOCK FALSE
